@@ -182,7 +182,71 @@ def probe():
             except BaseException as e: out.append(("raised", type(e).__name__))
         if out != [("returned", 1), "RaisesContractError"]: bad.append([name, out])
     return bad
+
+def kind_probe():
+    # foreign functools.wraps-style decorators that change the kind of the callable (generator function -> context manager factory,
+    # generator function -> plain function returning a list, coroutine function -> plain function that runs it): with deal contracts
+    # above, below, or on both sides they keep working as without deal, and the contracts that were applied are enforced
+    import contextlib, functools, asyncio
+    bad = []
+    def collect(fn):
+        @functools.wraps(fn)
+        def w(*a, **k): return list(fn(*a, **k))
+        return w
+    def run_sync(fn):
+        @functools.wraps(fn)
+        def w(*a, **k): return asyncio.run(fn(*a, **k))
+        return w
+    def mk_gen():
+        def numbers(n):
+            for i in range(n): yield i
+        return numbers
+    def mk_cm():
+        def managed(n):
+            yield n * 2
+        return managed
+    def mk_co():
+        async def work(n): return n + 1
+        return work
+    def use_cm(f, n):
+        with f(n) as v: return v
+    cases = [("collect", mk_gen, collect, lambda f, n: f(n), 3, [0, 1, 2]),
+             ("contextmanager", mk_cm, contextlib.contextmanager, use_cm, 3, 6),
+             ("run_sync", mk_co, run_sync, lambda f, n: f(n), 3, 4)]
+    for name, mk, foreign, use, good, want in cases:
+        for where in ("above", "below", "both"):
+            f = mk()
+            if where in ("below", "both"): f = deal.post(lambda r: True)(f)
+            f = foreign(f)
+            if where in ("above", "both"): f = deal.pre(lambda n: n >= 0)(f)
+            try: got = use(f, good)
+            except BaseException as e: got = ("raised", type(e).__name__)
+            if got != want: bad.append([name, where, "result", repr(got), repr(want)])
+            if where in ("above", "both"):
+                try: use(f, -1); got = "no error"
+                except deal.PreContractError: got = "PreContractError"
+                except BaseException as e: got = ("raised", type(e).__name__)
+                if got != "PreContractError": bad.append([name, where, "precondition above the foreign decorator at the call", repr(got), "PreContractError"])
+        # a chain object re-used on two such functions
+        ch = deal.chain(deal.pre(lambda n: n >= 0), deal.post(lambda r: r is not None))
+        f1, f2 = ch(foreign(mk())), ch(foreign(mk()))
+        for f in (f1, f2):
+            try: got = use(f, good)
+            except BaseException as e: got = ("raised", type(e).__name__)
+            if got != want: bad.append([name, "chain re-used above", "result", repr(got), repr(want)])
+    return bad
 """
+
+
+def kind_probe(ctx, fr):
+    from ..harness import impl
+    r = impl.run_impl('pyexec.py', {'src': ALIAS_SRC, 'calls': [['kind_probe', []]]})[0]
+    fr.evaluations += 21; fr.add_nontrivial({'kind_probe': 1})
+    fr.samples.append({'family': 'foreign decorators that change the kind of the callable', 'deviations': r})
+    if isinstance(r, dict): fr.errors.append('C09 kind probe failed: ' + str(r)[:400])
+    elif r:
+        fr.violations.append({'scenario': {'family': 'kind-changing-foreign-decorator', 'case': r[0]}, 'impl': r, 'signature': None,
+                              'what': f'[foreign decorator, position of the deal contracts, what, got, expected] = {r[0]}: a foreign decorator must keep working as without deal and the applied contracts are enforced'})
 
 
 def alias_probe(ctx, fr):
@@ -200,6 +264,7 @@ _run_compose = run
 def run(ctx, fr, model_available=True):
     _run_compose(ctx, fr, model_available)
     alias_probe(ctx, fr)
+    kind_probe(ctx, fr)
 
 
 def search(ctx, fr, model_available=True): return base_scn.search(_me, ctx, fr, model_available)
